@@ -12,7 +12,7 @@ pub static DEF: PropDef = PropDef {
     id: "C16",
     title: "Enumerated protocol fields accept exactly their assigned code points",
     rule: "Every x in 0..=65535 for each of six enumerated fields - message type (in a Message Type AVP), general error type (in a Result Code AVP), proxy authentication type, the Stop-CCN and CDN views of a result \
-code, and the attribute type (in front of a payload that is valid for every assigned kind, and again with the H bit) - plus every named value of every enumeration. Oracle: accepted iff x is an RFC 2661 code point \
+code, and the attribute type (in front of a payload that is valid for every assigned kind, with the M bit set and clear and with reserved AVP header bits set, and again with the H bit) - plus every named value of every enumeration. Oracle: accepted iff x is an RFC 2661 code point \
 of the field; the decoded named value is the one the RFC gives that number (matched by name through the harness's own tables); an accepted x re-encodes to x; each named value encodes to its RFC number; \
 result codes keep the raw value for all x and as_stop_ccn / as_cdn succeed exactly on 0-7 / 0-11; the decoded AVP variant is the kind of that attribute number. Non-trivial = every (field, x); distinct by (field, x).",
     assumptions: &["the harness's RFC 2661 number/name tables (glue.rs, this file) are the trusted base"],
@@ -206,9 +206,35 @@ fn check_code(x: u16, cx: &mut Cx) -> Res {
     // 6. attribute type, clear and hidden
     cx.evals_n(2);
     let up = universal_payload();
+    let assigned = fmt_of(x).is_some();
+    // header bits the specification ignores must not open or close the set of accepted types: M clear, reserved bits set
+    for o1 in [0x00u8, 0x3c, 0x3d] {
+        cx.eval();
+        let bv = avp_bytes(o1, x, &up);
+        let rv = one(&bv, "attribute type", x)?;
+        if rv.is_ok() != assigned {
+            return fail(
+                format!("attribute type {} with first header octet {:#04x} (M {}, reserved bits {:#x}): {} although the type is {}", x, o1, o1 & 1, o1 & 0x3c, if rv.is_ok() { "accepted" } else { "rejected" }, if assigned { "assigned" } else { "unassigned" }),
+                json!({"avp": hex(&bv)}),
+            );
+        }
+        if let Ok(a) = &rv {
+            if a.attr != x || a.hidden {
+                return fail(format!("attribute type {} decoded to the kind of number {}", x, a.attr), json!({"avp": hex(&bv)}));
+            }
+        }
+    }
+    // the same for the message-type field
+    {
+        cx.eval();
+        let bv = avp_bytes(0x3c, 0, &x.to_be_bytes());
+        let rv = one(&bv, "message type", x)?;
+        if rv.is_ok() != MSG_TYPES.contains(&x) {
+            return fail(format!("message-type code {} with M clear and reserved header bits set: acceptance differs from the assigned set", x), json!({"avp": hex(&bv)}));
+        }
+    }
     let b = avp_bytes(1, x, &up);
     let r = one(&b, "attribute type", x)?;
-    let assigned = fmt_of(x).is_some();
     match &r {
         Ok(a) => {
             if !assigned {
